@@ -1,6 +1,39 @@
-(** C13 - placeholder until the nonce-source theorems land. *)
-From Coq Require Import List NArith.
-From BP Require Import Model.Nonce.
-Theorem C13_r_s_always_from_rng : forall seeded T rounds, source_of seeded T rounds SR = FromRng (1 + rounds) 0 /\ source_of seeded T rounds SS = FromRng (1 + rounds) 1.
-Proof. intros; split; reflexivity. Qed.
-Print Assumptions C13_r_s_always_from_rng.
+(** C13 — every blinding nonce in a proof is fresh.  Equality of VALUES read from distinct sources has
+    probability 1/l (Merlin / Blake2b as PRFs) and is TRUSTED; what is proved is that no two slots read
+    the same source, and that the seed-derivation key is injective. *)
+From Coq Require Import List Arith NArith Bool String.
+From BP Require Import Model.Codec Model.Verifier Model.Nonce Proofs.NonceP.
+Import ListNotations.
+
+(** all 2T*rounds + 3T + 2 slots of a proof (alpha_k, dL_jk, dR_jk, r, s, d_k, eta_k) read pairwise distinct
+    sources: distinct (RNG instance, draw index) pairs without a seed; distinct (label, j, k) triples —
+    and for r, s still two distinct RNG draws — with a seed *)
+Theorem C13_slots_have_distinct_sources : forall seeded T rounds,
+  NoDup (map (source_of seeded T rounds) (all_slots T rounds)).
+Proof. exact slots_have_distinct_sources. Qed.
+Print Assumptions C13_slots_have_distinct_sources.
+
+Theorem C13_final_masks_from_rng : forall seeded T rounds,
+  source_of seeded T rounds SR = FromRng (1 + rounds) 0 /\ source_of seeded T rounds SS = FromRng (1 + rounds) 1.
+Proof. exact final_masks_from_rng. Qed.
+Print Assumptions C13_final_masks_from_rng.
+
+Theorem C13_seeded_slots_documented : forall T rounds j k,
+  source_of true T rounds (SAlpha k) = FromSeed NAlpha None k /\ source_of true T rounds (SdL j k) = FromSeed NdL (Some j) k /\
+  source_of true T rounds (SdR j k) = FromSeed NdR (Some j) k /\ source_of true T rounds (SD k) = FromSeed Nd None k /\
+  source_of true T rounds (SEta k) = FromSeed NEta None k.
+Proof. exact seeded_slots_documented. Qed.
+Print Assumptions C13_seeded_slots_documented.
+
+(** the Blake2b key 0x00 || seed || ['j' || LE32 j] || ['k' || LE32 k] determines seed, j and k *)
+Theorem C13_nonce_key_injective : forall seed seed' j j' k k',
+  (seed < 2 ^ 256)%N -> (seed' < 2 ^ 256)%N -> idx_ok j -> idx_ok j' -> idx_ok k -> idx_ok k' ->
+  nonce_key seed j k = nonce_key seed' j' k' -> seed = seed' /\ j = j' /\ k = k'.
+Proof. exact nonce_key_injective. Qed.
+Print Assumptions C13_nonce_key_injective.
+
+Theorem C13_persona_injective : forall a b, nlabel_string a = nlabel_string b -> a = b.
+Proof. exact nlabel_string_injective. Qed.
+Print Assumptions C13_persona_injective.
+
+Example C13_ex_slot_count : List.length (all_slots 2 3) = 20%nat. Proof. reflexivity. Qed.
